@@ -45,6 +45,12 @@ elif check == "mass_pd":
 elif check == "mass_total":
     print("t'Mt per direction", r["M_dir"], "expected", expect)
     bad = any(abs(x - expect) > 1e-9 * abs(expect) for x in r["M_dir"])
+elif check == "beam_rigid":
+    print("|K r|/(|K||r|) for each rigid translation and rotation:", r["rigid_residual"], " local frame |P'P - I| =", r["frame_orthonormality_defect"])
+    bad = max(r["rigid_residual"]) > 1e-9
+elif check == "beam_frame":
+    print("local frame |P'P - I| =", r["frame_orthonormality_defect"])
+    bad = r["frame_orthonormality_defect"] > 1e-12
 elif check == "energy":
     print("u'Ku for a linear field", r["lin_energy"], "expected thickness*measure*density =", expect)
     bad = abs(r["lin_energy"] - expect) > 1e-9 * abs(expect)
@@ -240,6 +246,13 @@ def run(ctx):
                 cases.append(dict(j, kind="patch", phys="elastic", params=PAR_E, label=lab, plist=l))
     for p in pD:
         cases.append(dict(T_patch.to_json(p), kind="layout", label="layout"))
+    for p in pD:
+        if p["dim"] >= 2:
+            nrm = [1.0, 0.0, 0.0] if p["dim"] == 3 else [0.6, 0.8, 0.0]
+            j = T_patch.to_json(p)
+            ops = [["signed_jacobian"], ["mirror", nrm], ["signed_jacobian"], ["measure"]]
+            cases.append(dict(j, kind="patch", phys="elastic", params=PAR_E, label="dist2-mirror", plist=None, ops=ops))
+            cases.append(dict(j, kind="patch", phys="thermal", params=PAR_T, label="dist2-mirror", plist=None, ops=ops))
     quick = ctx.tier != "thorough"
     gm = [("TRI3", 2), ("QUAD8", 2), ("TRI10", 2), ("TETRA4", 3), ("HEXA8", 3), ("PRISM6", 3), ("SEG3", 1)] if quick else \
         [(n, E[n]["dim"]) for n in E]
@@ -252,12 +265,37 @@ def run(ctx):
             A = [[1 + ctx.rng.uniform(-.2, .2) if i == j else ctx.rng.uniform(-.3, .3) for j in range(dim)] for i in range(dim)]
             c["A"], c["b"] = A, [ctx.rng.uniform(-1, 1) for _ in range(dim)]
             for phys in (["thermal"] if dim == 1 else ["elastic", "thermal"] if (rep == 0 and not quick) or et in ("TRI3", "TETRA4") else ["elastic"]):
-                cases.append(dict(c, phys=phys, params=PAR_E if phys == "elastic" else PAR_T))
+                base = dict(c, phys=phys, params=PAR_E if phys == "elastic" else PAR_T)
+                cases.append(base)
+                if dim == 1:
+                    continue
+                # interleavings: mirrored copy (det J < 0) with point location / signed-Jacobian getter
+                # calls BEFORE the first assembly; rotated copy
+                import math
+                def unit(d):
+                    v = [ctx.rng.gauss(0, 1) for _ in range(d)] + [0.0] * (3 - d)
+                    nv = math.sqrt(sum(x * x for x in v))
+                    return [x / nv for x in v]
+                cases.append(dict(base, label="gmsh-mirror", ops=[["mirror", unit(dim)], ["evaluate"], ["signed_jacobian"], ["measure"]]))
+                cases.append(dict(base, label="gmsh-rot", ops=[["signed_jacobian"], ["rotate", ctx.rng.uniform(10, 170), [0.0, 0.0, 1.0] if dim == 2 else unit(3)], ["evaluate"]]))
     for et in ("SEG2", "SEG3", "SEG4", "SEG5"):
         for bd in (1, 2, 3):
             for timo in (False, True):
                 cases.append({"kind": "beam", "elem": et, "beamDim": bd, "timo": timo, "L": 10.0, "n": 3, "b": 0.3, "h": 0.5,
-                              "E": 210.0, "v": 0.3, "rho": 2.0, "label": "beam"})
+                              "E": 210.0, "v": 0.3, "rho": 2.0, "label": "beam", "orient": "x-axis"})
+    # inclined beams (generic directions), default and user-supplied non-perpendicular yAxis
+    for et in (("SEG2", "SEG3") if quick else ("SEG2", "SEG3", "SEG4", "SEG5")):
+        for bd in (2, 3):
+            for timo in (False, True):
+                for ya in ("default", "user"):
+                    p1 = [ctx.rng.uniform(-1, 1), ctx.rng.uniform(-1, 1), ctx.rng.uniform(-1, 1) if bd == 3 else 0.0]
+                    d = [ctx.rng.uniform(2, 5), ctx.rng.uniform(1, 4) * ctx.rng.choice([-1, 1]), (ctx.rng.uniform(1, 4) * ctx.rng.choice([-1, 1])) if bd == 3 else 0.0]
+                    c = {"kind": "beam", "elem": et, "beamDim": bd, "timo": timo, "p1": p1, "p2": [a + b for a, b in zip(p1, d)], "n": 3,
+                         "b": 0.3, "h": 0.5, "E": 210.0, "v": 0.3, "rho": 2.0, "label": "beam", "orient": "inclined-" + ya}
+                    if ya == "user":
+                        # deliberately NOT perpendicular to the fibre: the setter must re-orthogonalise it
+                        c["yAxis"] = [ctx.rng.uniform(-1, 1), ctx.rng.uniform(0.5, 1.5), ctx.rng.uniform(-1, 1)] if bd == 3 else [-d[1] + 0.4 * d[0], d[0] + 0.4 * d[1], 0.0]
+                    cases.append(c)
     rc, out, err = ctx.impl_python(os.path.join(common.VERIF, "corr", "C02_impl.py"), input=json.dumps({"cases": cases}), timeout=1500)
     if rc != 0 or "@@JSON@@" not in out:
         ctx.obligation("impl-run", False, err[-1500:])
@@ -293,10 +331,19 @@ def run(ctx):
             continue
         K, M = r["K"], r["M"]
         if c["kind"] == "beam":
-            ctx.note_case("beam:%s:%d:%s" % (n, c["beamDim"], c["timo"]))
+            ctx.note_case("beam:%s:%d:%s:%s" % (n, c["beamDim"], c["timo"], c["orient"]))
             nr = {1: 1, 2: 3, 3: 6}[c["beamDim"]]
-            key = "%s:dim%d:%s" % (n, c["beamDim"], "timoshenko" if c["timo"] else "euler-bernoulli")
-            expM = c["rho"] * c["b"] * c["h"] * c["L"]
+            key = "%s:dim%d:%s:%s" % (n, c["beamDim"], "timoshenko" if c["timo"] else "euler-bernoulli", c["orient"])
+            expM = c["rho"] * c["b"] * c["h"] * r["L"]
+            okr = max(r["rigid_residual"]) <= 1e-9
+            ctx.obligation("beam: K * (each rigid translation / rotation) = 0 (%s)" % key, okr, "max |K r|/(|K||r|) = %.2e" % max(r["rigid_residual"]))
+            if not okr:
+                ctx.violation("beam-rigid:" + key, "beam stiffness: the rigid-body motions are not zero-energy modes, |K r|/(|K||r|) per mode = %s (local frame orthonormality defect %.2e)" % (
+                    ["%.1e" % x for x in r["rigid_residual"]], r["frame_orthonormality_defect"]), dict(replay(c, "beam_rigid", None)), True)
+            okf = r["frame_orthonormality_defect"] <= 1e-12
+            ctx.obligation("beam: local frame P orthonormal (%s)" % key, okf, "%.2e" % r["frame_orthonormality_defect"])
+            if not okf:
+                ctx.violation("beam-frame:" + key, "beam local frame (_Calc_P) is not orthonormal: max |P'P - I| = %.2e" % r["frame_orthonormality_defect"], dict(replay(c, "beam_frame", None)), True)
             checks = [("sym_psd", K["sym_defect"] <= 1e-12 * K["absmax"] and K["eig_min"] >= -1e-10 * K["eig_max"], None, "beam-K-sympsd:" + key, "beam stiffness not symmetric PSD"),
                       ("kernel", K["n_below"] == nr, nr, "beam-kernel:" + key, "beam stiffness has %d zero eigenvalues, %d rigid modes expected" % (K["n_below"], nr)),
                       ("mass_total", all(abs(x - expM) <= 1e-9 * expM for x in r["M_dir"]), expM, "beam-mass:" + key, "beam translational mass %s, expected rho*A*L = %s" % (r["M_dir"], expM))]
@@ -333,13 +380,13 @@ def run(ctx):
         th = c["params"]["thickness"] if dim == 2 else 1.0
         if lab == "ref2":
             meas = float(2 * REF_MEASURE[T_patch.family(n)])
-        elif lab == "gmsh":
+        elif lab.startswith("gmsh"):
             meas = c["L"] * (c["H"] if dim >= 2 else 1.0) * (c["D"] if dim == 3 else 1.0) * abs(np.linalg.det(np.array(c["A"])))
         else:
             # distorted/curved patch: theorem C02_mass_total predicts rho * sum_p w_p|J_p| with the mass
             # rule (the exact measure of a curved element is not a polynomial integral of the rule)
             meas = r["wJ_mass_sum"]
-        if lab != "dist2" and not (lab == "gmsh" and E[n]["order"] > 1 and False):
+        if not lab.startswith("dist2"):
             okm = abs(r["measure"] - meas) <= 1e-9 * meas
             ctx.obligation("mesh measure (%s)" % tag, okm, "%r vs %r" % (r["measure"], meas))
             if not okm:
@@ -355,7 +402,7 @@ def run(ctx):
                 replay(c, "mass_total", expM), True)
         # energy: theorem Ke_energy_const_strain predicts (sum_p w_p|J_p| with the rigi rule) * density;
         # on affine elements every rule gives the exact measure
-        expE = th * (meas if lab != "dist2" else r["measure_rigi"]) * r["lin_density"]
+        expE = th * (meas if not lab.startswith("dist2") else r["measure_rigi"]) * r["lin_density"]
         oke = abs(r["lin_energy"] - expE) <= 1e-9 * abs(expE)
         ctx.obligation("u'Ku of a linear field = thickness*measure*density (%s)" % tag, oke, "%r vs %r" % (r["lin_energy"], expE))
         if not oke:
